@@ -82,7 +82,7 @@ UNIT_DRIVERS = {
     "pipeline_commit": ["transaction::conflict_enum"],
     "txn_commit": ["transaction::conflict_enum"],
     "oracle": ["transaction::conflict_enum"],
-    "point_read": ["snapshot::reads_enum_quick"],
+    "point_read": ["snapshot::reads_enum_quick", "snapshot::reads_enum_thorough"],
     "visibility_filter": ["snapshot::reads_enum_quick"],
     "scan_filter": ["transaction::cursor_enum_quick"],
     "range_bounds": ["transaction::cursor_enum_quick"],
